@@ -1,5 +1,6 @@
 import SLE.Lemmas.VMControl
 import SLE.Props.C10
+import SLE.Lemmas.MachineFacts
 /-!
 # C08 — control flow is followed exactly as the EVM allows
 
@@ -63,5 +64,26 @@ theorem C08_target_is_evm_jumpdest (bs : List UInt8) (code : List Instr)
 example : validateJump [.push 1 [3], .nop, .op 0x56, .op 0x5b] (SV.mkKnown 3#256) = .ok 3 := by rfl
 example : validateJump [.push 1 [3], .nop, .op 0x56, .op 0x5b]
     (SV.mkKnown (BitVec.ofNat 256 (2 ^ 32 + 3))) = .error .nonExistentJumpTarget := by rfl
+
+
+/-- The model's notion of a valid jump destination (a JUMPDEST entry of the instruction stream)
+is the reference EVM's (a 0x5b byte that is not push data, by the EVM's own scan of the bytes). -/
+theorem C08_validDest_iff_evm (bs : List UInt8) (code : List Disasm.Instr)
+    (hne : bs ≠ []) (hlen : bs.length < 2 ^ 32)
+    (h : Disasm.disasm (C10.toNats bs) = .ok code) (t : Nat) :
+    EVM.validDest (C10.toNats bs).toArray
+        (EVM.pushData (C10.toNats bs).toArray ((C10.toNats bs).length + 1) 0 []) t = true
+      ↔ code[t]? = some (.op 0x5b) :=
+  MachineFacts.validDest_iff_stream_jumpdest bs code hne hlen h t
+
+/-- A jump is accepted exactly when the whole popped constant is an EVM-valid destination. -/
+theorem C08_validateJump_iff_evm (bs : List UInt8) (code : List Disasm.Instr)
+    (hne : bs ≠ []) (hlen : bs.length < 2 ^ 32)
+    (h : Disasm.disasm (C10.toNats bs) = .ok code) (counter : SV) (w : Word)
+    (hw : VM.isKnown (SV.fold counter) = some w) (t : Nat) :
+    VM.validateJump code counter = .ok t ↔
+      (w.toNat = t ∧ EVM.validDest (C10.toNats bs).toArray
+          (EVM.pushData (C10.toNats bs).toArray ((C10.toNats bs).length + 1) 0 []) t = true) :=
+  MachineFacts.validateJump_iff_evm bs code hne hlen h counter w hw t
 
 end SLE.C08
